@@ -206,7 +206,12 @@ Definition apply_fn1 (f : fn) (x : val) : res val :=
               | VStr s => Ok (VStr (s ++ s)) | VList _ l => Ok (VList 0 (l ++ l)) | VTuple _ l => Ok (VTuple 0 (l ++ l))
               | VNone | VDict _ _ _ | VObj _ _ _ => type_error | _ => Unmodelled "dbl" end end
   | FEven => match as_num x with Some a => Ok (VBool (Z.eqb (a mod 2) 0)) | None =>
-              match x with VNone | VList _ _ | VTuple _ _ | VDict _ _ _ | VObj _ _ _ => type_error | _ => Unmodelled "even" end end
+              match x with
+              | VNone | VList _ _ | VTuple _ _ | VDict _ _ _ | VObj _ _ _ | VSet _ _ _ | VFun _ => type_error
+              | VStr s =>
+                  (* str % int is printf-style formatting: without a conversion in the text the argument is left over -> TypeError *)
+                  if existsb (Ascii.eqb "%"%char) (list_ascii_of_string s) then Unmodelled "even" else type_error
+              | _ => Unmodelled "even" end end
   | FConst z => Ok (VInt z)
   | FRaise c => Raise (simple_exn c)
   | FSkipIfOdd => match x with VInt a => if Z.eqb (a mod 2) 1 then Ok VSkip else Ok x | _ => Ok x end
